@@ -97,6 +97,9 @@ pub enum Stop {
     Halted(String),
     /// the interpreter met a construct it does not implement
     Unsupported(String),
+    /// the program is not a valid Go program (would not compile / type-check): e.g. a call of
+    /// a struct value, an unknown identifier
+    Invalid(String),
 }
 
 pub struct CoState {
@@ -132,6 +135,8 @@ pub enum Unwind {
     Panic(String),
     /// construct not implemented by the interpreter
     Unsupported(String),
+    /// ill-formed program
+    Invalid(String),
 }
 
 pub type R<T> = Result<T, Unwind>;
@@ -295,6 +300,11 @@ impl Co {
                     Err(Unwind::Unsupported(what)) => {
                         if s.stop.is_none() {
                             s.stop = Some(Stop::Unsupported(what));
+                        }
+                    }
+                    Err(Unwind::Invalid(what)) => {
+                        if s.stop.is_none() {
+                            s.stop = Some(Stop::Invalid(what));
                         }
                     }
                 }
